@@ -118,7 +118,7 @@ def check_dwt_inverse(cfg, sizes, rnd):
             shapes = [c.shape for c in pywt.wavedec(np.zeros((Bn, C, N)), wc, mode=m, level=J, axis=-1)]
         except ValueError as e:
             return True, 'oracle undefined here (pywt raises: %s)' % e
-        coeffs = [np.random.RandomState(rnd.randint(0, 10**6)).randn(*s) for s in shapes]
+        coeffs = [rtc.RState(rnd.randint(0, 10**6)).randn(*s) for s in shapes]
         yl = torch.tensor(coeffs[0])
         yh = [torch.tensor(c) for c in coeffs[1:]][::-1]
         ref_c = list(coeffs)
@@ -137,7 +137,7 @@ def check_dwt_inverse(cfg, sizes, rnd):
         ref0 = pywt.wavedec2(np.zeros((Bn, C, H, W)), (wc, wr), mode=m, level=J, axes=(-2, -1))
     except ValueError as e:
         return True, 'oracle undefined here (pywt raises: %s)' % e
-    rs = np.random.RandomState(rnd.randint(0, 10**6))
+    rs = rtc.RState(rnd.randint(0, 10**6))
     cA = rs.randn(*ref0[0].shape)
     det_ = [tuple(rs.randn(*d.shape) for d in lvl) for lvl in ref0[1:]]
     yl = torch.tensor(cA)
@@ -169,7 +169,7 @@ def check_dwt_grad(cfg, sizes, rnd):
     Lr = 2 * _sz(sizes, 'Lr2', sizes.get('L2', 2), 1, 8)
     Bn, C = 1, _sz(sizes, 'C', 1, 1, 2)
     mi = lowlevel.mode_to_int(mode)
-    rs = np.random.RandomState(rnd.randint(0, 10**6))
+    rs = rtc.RState(rnd.randint(0, 10**6))
 
     def filt(n, shape):
         return torch.tensor(rs.randn(n)).reshape(shape)
@@ -236,7 +236,7 @@ def check_slices(cfg, sizes, rnd):
     Bn, C = _sz(sizes, 'B', 2, 1, 3), _sz(sizes, 'C', 2, 1, 3)
     N = _sz(sizes, 'N', 6, 2, 16)
     one_d = '1D' in fn
-    rs = np.random.RandomState(rnd.randint(0, 10**6))
+    rs = rtc.RState(rnd.randint(0, 10**6))
     shp = (Bn, C, N) if one_d else (Bn, C, N, N + 1)
     cls = {'DWT1DForward': DWT1DForward, 'DWTForward': DWTForward, 'DWT1DInverse': DWT1DInverse, 'DWTInverse': DWTInverse}[fn]
     fwd = 'Forward' in fn
@@ -287,7 +287,7 @@ def check_nonsep(cfg, sizes, rnd):
     wr = _wave(sizes.get('Lr2', 1)) if nf == 4 else wc
     H, W = _sz(sizes, 'H', 6, 1, 20), _sz(sizes, 'W', 5, 1, 20)
     C = _sz(sizes, 'C', 2, 1, 3)
-    rs = np.random.RandomState(rnd.randint(0, 10**6))
+    rs = rtc.RState(rnd.randint(0, 10**6))
     old = torch.get_default_dtype()
     torch.set_default_dtype(torch.float64)
     try:
@@ -328,7 +328,7 @@ def check_dwt_pr(cfg, sizes, rnd):
     w = pywt.Wavelet(name) if name else _wave(sizes.get('Lc2', sizes.get('L2', 2)))
     J = _sz(sizes, 'J', 2, 1, 4)
     m = _mode(mode)
-    rs = np.random.RandomState(rnd.randint(0, 10**6))
+    rs = rtc.RState(rnd.randint(0, 10**6))
     if dim == 1:
         N = _sz(sizes, 'N', 9, 2, 64)
         x = torch.tensor(rs.randn(1, 2, N))
@@ -359,9 +359,9 @@ def check_dwt_pr(cfg, sizes, rnd):
         perr = None
     tol = 1e-9 if w.short_family_name != 'dmey' else None
     if tol is not None:
-        ok = err <= tol
+        ok = err <= tol * rtc.AMP['scale']
     else:
-        ok = perr is None or err <= 1.01 * perr + 1e-12
+        ok = perr is None or err <= 1.01 * perr + 1e-12 * rtc.AMP['scale']
     return ok, 'PR dim=%d %s %s J=%d shape=%s: err %.3g (pywt %s)' % (dim, mode, w.name, J, tuple(x.shape), err, perr)
 
 
@@ -375,7 +375,7 @@ def check_dwt_orth(cfg, sizes, rnd):
     J = _sz(sizes, 'J', 2, 1, 3)
     mult = _sz(sizes, 'm', 1, 1, 4)
     N = (w.dec_len + 2 * mult) // 2 * 2 * 2 ** (J - 1)
-    rs = np.random.RandomState(rnd.randint(0, 10**6))
+    rs = rtc.RState(rnd.randint(0, 10**6))
     shp = (1, 2, N) if dim == 1 else (1, 2, N, N + 2 ** J)
     x = torch.tensor(rs.randn(*shp), requires_grad=True)
     F_, I_ = (DWT1DForward, DWT1DInverse) if dim == 1 else (DWTForward, DWTInverse)
@@ -401,7 +401,7 @@ def check_swt_forward(cfg, sizes, rnd):
     J = min(4, max(_sz(sizes, 'J', 2, 1, 3), int(cfg.get('minJ', 1))))
     mh, mw = _sz(sizes, 'mh', 2, 1, 6), _sz(sizes, 'mw', 3, 1, 6)
     H, W = mh * 2 ** J, mw * 2 ** J
-    rs = np.random.RandomState(rnd.randint(0, 10**6))
+    rs = rtc.RState(rnd.randint(0, 10**6))
     x = torch.tensor(rs.randn(1, 2, H, W))
     kw = {'J': J, 'wave': w}
     if cfg.get('mode') is not None:
